@@ -132,6 +132,7 @@ pub fn judge(steps: &[Step], cache: bool, stats: &mut Stats) -> Vec<(String, Str
         }
         let Some(exp) = &refs[k] else { continue };
         stats.inc("compilations_compared");
+        stats.fold_str(&format!("{:?}", r.res));
         if s.thread {
             stats.inc("probe:compared_on_other_os_thread");
         }
